@@ -525,7 +525,12 @@ class Program:
         # helper functions that the rules do not know by name are expanded into their callers (see inline.py)
         from .inline import load_baseline, inline_unknown_helpers
         bl = load_baseline()
-        self.inlined_helpers = inline_unknown_helpers(j, bl) if bl is not None else []
+        # private items renamed since the reviewed tree get their baseline names back first (see canon.py)
+        self.renamed = []
+        if bl is not None:
+            from .canon import canonicalise_names
+            self.renamed = canonicalise_names(j, bl)
+        self.inlined_helpers = inline_unknown_helpers(j, set(bl["fns"])) if bl is not None else []
         self.fns = {}
         for fj in j["fns"]:
             f = Fn(fj, self)
